@@ -19,7 +19,20 @@ WAL_MISSING = Arm(r"^call Path::exists$", {"0"}, name="wal_path.exists() == fals
 SNAP_ERR = Arm(r"^discr\(call Snapshot::load_with_validation::<&PathBuf>\)$", {"1"}, name="load_with_validation -> Err", nth=0)
 FALLBACK = Arm(r"load_with_validation::<&PathBuf>\} as Ok\)\.0: \(persistence::Snapshot, bool\)\)\.1: bool\)$", {"otherwise"}, name="recovered_from_fallback == true")
 
+def frame_acceptance(F):
+    """WalReader::read_all: a frame's payload is deserialised and pushed only if 0 < len <= MAX_WAL_ENTRY_BYTES and the stored
+    checksum equals the computed one (DECIDES, for all values of len / stored crc / computed crc)."""
+    from vlib import mirdec as MD
+    atoms = [("len", r"^call core::num::<impl u32>::from_le_bytes$", "\u27e8[^\u27e9]*(size|len)"), ("stored", r"^call core::num::<impl u32>::from_le_bytes$", "\u27e8[^\u27e9]*(check|crc)"),
+             ("computed", r"^call crc32fast::hash$"), ("max", r"^const (persistence::)?MAX_WAL_ENTRY_BYTES$")]
+    start = call(r"as std::io::Read>::read_exact\(", name="frame reads")
+    return MD.decides(F, RD, "entry", {"push": PUSH}, atoms, {"push": ("=>", "(and (> len 0) (<= len max) (= stored computed))")}, containing=PUSH,
+                      what="read_all pushes an entry only from a frame with 0 < len <= MAX_WAL_ENTRY_BYTES whose stored checksum equals the computed one")
+
+
 MOS = [
+    MO("O13.3/frame_acceptance", "WalReader::read_all: an entry is pushed only from a frame with 0 < len <= MAX_WAL_ENTRY_BYTES whose stored checksum equals the computed one — proved for all values (DECIDES)",
+       lambda F: frame_acceptance(F), functions=[("persistence.rs", "read_all")]),
     MO("O13.1/reader", "recover: the tolerant reader is used only on the BestEffort arm; the strict reader is reachable on the Strict arm",
        allof(only_via(R, READ_ALL, Arm(r"^discr\(arg\(_\d+: (config::)?RecoveryMode\)\)$", {"1"}, name="recovery_mode == BestEffort")),
              lambda F: FnCheck(F, R).reachable(READ_STRICT, assume=[STRICT])),
